@@ -83,7 +83,8 @@ theorem setVar_reach (t : Tid) (e : Env R) (v : Nat) (h : Option Nat) : Reach P 
 theorem saveLastError_reach (t : Tid) (e : Env R) (m : ErrMsg) : Reach P t e (saveLastError e t m) :=
   .single (.frame rfl rfl (by intro t' ht; simp [saveLastError, ht]))
 
-theorem allocStr_reach (t : Tid) (hP : P .str) (e : Env R) (dst : Nat) : Reach P t e (allocStr e dst) :=
+theorem allocStr_reach (t : Tid) (hP : P .str) (e : Env R) (dst : Nat) (v : Bytes) :
+    Reach P t e (allocStr e dst v) :=
   .single (.alloc .str hP (by simp [allocStr, alloc, Env.setVar, Env.out]) (by simp [allocStr, alloc, Env.setVar, Env.out])
     (by intro t' _; simp [allocStr, alloc, Env.setVar, Env.out]))
 
@@ -179,8 +180,8 @@ theorem reach_out {t : Tid} {e e1 : Env R} (r : CRes) (h : Reach P t e e1) : Rea
   h.trans (out_reach t _ _)
 theorem reach_save {t : Tid} {e e1 : Env R} (m : ErrMsg) (h : Reach P t e e1) :
     Reach P t e (saveLastError e1 t m) := h.trans (saveLastError_reach t _ _)
-theorem reach_allocStr {t : Tid} {e e1 : Env R} (dst : Nat) (h : Reach HKind t e e1) :
-    Reach HKind t e (allocStr e1 dst) := h.trans (allocStr_reach t hk_str _ _)
+theorem reach_allocStr {t : Tid} {e e1 : Env R} (dst : Nat) (v : Bytes) (h : Reach HKind t e e1) :
+    Reach HKind t e (allocStr e1 dst v) := h.trans (allocStr_reach t hk_str _ _ _)
 theorem reach_nullStr {t : Tid} {e e1 : Env R} (dst : Nat) (h : Reach P t e e1) :
     Reach P t e (nullStr e1 dst) := h.trans (nullStr_reach t _ _)
 theorem reach_setVar {t : Tid} {e e1 : Env R} (v : Nat) (x : Option Nat) (h : Reach P t e e1) :
